@@ -158,7 +158,8 @@ def c05(tier, seed):
              if any(k in c["grammar"] for k in ("PUSH", "PEEK", "POP", "DROP"))]
     r = parse_family("C05", tier, seed, [
         ("X", {"cases": cases}),
-        ("G2", {"n": _sizes(tier, 700, 10000), "stack": True}),
+        ("X", {"cases": gen.stack_cases(seed + 7, _sizes(tier, 1500, 20000))}),
+        ("G2", {"n": _sizes(tier, 500, 10000), "stack": True}),
     ], ["C05", "C07"])
     r.rule = RULE_PARSE + " Restricted to grammars using the stack operations. Judge: every mode vs the reference semantics, and no exception other than PestParsingError."
     return r
